@@ -36,16 +36,25 @@ theorem getD_setPad {α : Type} (d : α) (l : List α) (x y : Nat) (v : α) :
 
 /-! ### the class lattice -/
 
-theorem Lvl.sub_iff {a b : Lvl} : a.sub b = true ↔ a = b ∨ a = .num := by
+theorem Lvl.sub_iff {a b : Lvl} : a.sub b = true ↔ a = b ∨ (a = .num ∧ b ≠ .ext) := by
   cases a <;> cases b <;> simp [Lvl.sub]
 
 theorem Lvl.sub_refl (a : Lvl) : a.sub a = true := Lvl.sub_iff.mpr (Or.inl rfl)
 
 theorem Lvl.sub_trans {a b c : Lvl} (h1 : a.sub b = true) (h2 : b.sub c = true) : a.sub c = true := by
   rw [Lvl.sub_iff] at *
-  rcases h1 with rfl | rfl
+  rcases h1 with rfl | ⟨rfl, hb⟩
   · exact h2
-  · right; rfl
+  · rcases h2 with rfl | ⟨rfl, hc⟩
+    · right; exact ⟨rfl, hb⟩
+    · right; exact ⟨rfl, hc⟩
+
+/-- only the object of an unprotected parameter has class `lv ext` -/
+theorem Lvl.sub_ext {a : Lvl} (h : a.sub .ext = true) : a = .ext := by
+  rw [Lvl.sub_iff] at h
+  rcases h with rfl | ⟨_, h⟩
+  · rfl
+  · exact absurd rfl h
 
 theorem Cls.le_refl (c : Cls) : c.le c = true := by
   cases c <;> simp [Cls.le, Lvl.sub_refl]
@@ -94,12 +103,66 @@ def EntryOK (τ : Typing) (t : Lvl) (r : Ref) : Prop :=
   | none => True
   | some t' => SatCls τ (.lv t') r
 
-/-- the heap is well typed: typed locations were allocated after entry (`n0 ≤ l`), `num` locations
-hold arrays, the entries of a typed dict-like object respect its level -/
-structure Typed (n0 : Nat) (τ : Typing) (h : Heap) : Prop where
-  bound : ∀ (l : Nat) t, τ l = some t → n0 ≤ l ∧ l < h.size
+/-- the heap is well typed. `W`: the locations the call MAY write although they existed at entry (the objects
+of the unprotected arguments) — exactly the locations of level `ext`. Every other typed location was allocated
+after entry (`n0 ≤ l`); `num` locations hold arrays; the entries of a typed dict-like object respect its level. -/
+structure Typed (n0 : Nat) (W : Loc → Prop) (τ : Typing) (h : Heap) : Prop where
+  bound : ∀ (l : Nat) t, τ l = some t → l < h.size ∧ (t ≠ .ext → n0 ≤ l)
+  extW : ∀ l, τ l = some .ext → W l
   isArr : ∀ l, τ l = some .num → ∃ d, h.get l = some (.arr d)
   entries : ∀ l t es, τ l = some t → h.get l = some (.dict es) → ∀ e ∈ es, EntryOK τ t e.2
+
+/-- THE FRAME: every location that existed at entry (`< n0`) and is not the object of an unprotected argument
+(`W`) holds the same object; and (for the callers' typing) an array stays an array everywhere -/
+def PreservesW (n : Nat) (W : Loc → Prop) (h h' : Heap) : Prop :=
+  n ≤ h'.size ∧ (∀ l, l < n → ¬ W l → h'.get l = h.get l) ∧
+    ∀ l d, l < n → h.get l = some (.arr d) → ∃ d', h'.get l = some (.arr d')
+
+theorem PreservesW.refl {n : Nat} {W : Loc → Prop} {h : Heap} (hn : n ≤ h.size) : PreservesW n W h h :=
+  ⟨hn, fun _ _ _ => rfl, fun _ d _ hd => ⟨d, hd⟩⟩
+
+theorem PreservesW.trans {n : Nat} {W : Loc → Prop} {h₁ h₂ h₃ : Heap} (a : PreservesW n W h₁ h₂)
+    (b : PreservesW n W h₂ h₃) : PreservesW n W h₁ h₃ :=
+  ⟨b.1, fun l hl hw => (b.2.1 l hl hw).trans (a.2.1 l hl hw), fun l d hl hd => by
+    obtain ⟨d', hd'⟩ := a.2.2 l d hl hd
+    exact b.2.2 l d' hl hd'⟩
+
+/-- a frame for a later, larger entry point and fewer writable locations restricts to the earlier one -/
+theorem PreservesW.mono {n m : Nat} {W V : Loc → Prop} {h h' : Heap} (hnm : n ≤ m)
+    (hvw : ∀ l, l < n → V l → W l) (a : PreservesW m V h h') : PreservesW n W h h' :=
+  ⟨Nat.le_trans hnm a.1,
+   fun l hl hw => a.2.1 l (Nat.lt_of_lt_of_le hl hnm) (fun hv => hw (hvw l hl hv)),
+   fun l d hl hd => a.2.2 l d (Nat.lt_of_lt_of_le hl hnm) hd⟩
+
+theorem PreservesW.of_preserves {n : Nat} {W : Loc → Prop} {h h' : Heap} (a : Preserves n h h') :
+    PreservesW n W h h' := ⟨a.1, fun l hl _ => a.2 l hl, fun l d hl hd => ⟨d, by rw [a.2 l hl]; exact hd⟩⟩
+
+/-- with no unprotected argument the frame is `Preserves` -/
+theorem PreservesW.to_preserves {n : Nat} {h h' : Heap} (a : PreservesW n (fun _ => False) h h') :
+    Preserves n h h' := ⟨a.1, fun l hl => a.2.1 l hl (fun hf => hf)⟩
+
+theorem preservesW_alloc {n : Nat} {W : Loc → Prop} {h : Heap} (hn : n ≤ h.size) (o : Obj) :
+    PreservesW n W h (h.alloc o).1 := PreservesW.of_preserves (preserves_alloc hn o)
+
+theorem get_set_eq (h : Heap) {l : Loc} (hl : l < h.size) (o : Obj) : (h.set l o).get l = some o := by
+  simp only [Heap.set, Heap.get, Heap.size] at *
+  simp [hl]
+
+theorem preservesW_set {n : Nat} {W : Loc → Prop} {h : Heap} (hn : n ≤ h.size) {l : Loc} (hl : n ≤ l ∨ W l) (o : Obj)
+    (hkeep : ∀ d, h.get l = some (.arr d) → ∃ d', o = .arr d') :
+    PreservesW n W h (h.set l o) := by
+  refine ⟨by rw [size_set]; exact hn, fun l' hl' hw => get_set_ne h l o ?_, ?_⟩
+  · intro heq
+    subst heq
+    rcases hl with h1 | h1
+    · exact absurd hl' (Nat.not_lt.mpr h1)
+    · exact hw h1
+  · intro l' d hl' hd
+    by_cases heq : l = l'
+    · subst heq
+      obtain ⟨d', rfl⟩ := hkeep d hd
+      exact ⟨d', get_set_eq h (Nat.lt_of_lt_of_le hl' hn) _⟩
+    · exact ⟨d, by rw [get_set_ne h l o heq]; exact hd⟩
 
 def Typing.le (τ τ' : Typing) : Prop := ∀ l t, τ l = some t → τ' l = some t
 
@@ -287,16 +350,13 @@ theorem mem_shrinkEntries {n : Nat} {es : List (String × Ref)} {e : String × R
 
 /-! ### typed heaps under allocation and writes -/
 
-theorem Typed.size_le {n0 : Nat} {τ : Typing} {h : Heap} (_ : Typed n0 τ h) {l : Loc} {t : Lvl}
-    (hl : τ l = some t) (ht : Typed n0 τ h) : l < h.size := (ht.bound l t hl).2
-
 /-- the typing extended by a new location -/
 def Typing.add (τ : Typing) (l : Loc) (t : Lvl) : Typing := fun l' => if l' = l then some t else τ l'
 
-theorem Typing.le_add {n0 : Nat} {τ : Typing} {h : Heap} (ht : Typed n0 τ h) (t : Lvl) :
+theorem Typing.le_add {n0 : Nat} {W : Loc → Prop} {τ : Typing} {h : Heap} (ht : Typed n0 W τ h) (t : Lvl) :
     τ.le (τ.add h.size t) := by
   intro l t' hl
-  have := (ht.bound l t' hl).2
+  have := (ht.bound l t' hl).1
   simp only [Typing.add]
   rw [if_neg (Nat.ne_of_lt this)]
   exact hl
@@ -304,23 +364,28 @@ theorem Typing.le_add {n0 : Nat} {τ : Typing} {h : Heap} (ht : Typed n0 τ h) (
 theorem get_alloc_new (h : Heap) (o : Obj) : (h.alloc o).1.get h.size = some o := by
   simp [Heap.alloc, Heap.get, Heap.size]
 
-/-- allocation of an object whose entries respect level `t` -/
-theorem Typed.alloc {n0 : Nat} {τ : Typing} {h : Heap} (ht : Typed n0 τ h) (hn : n0 ≤ h.size) (t : Lvl) (o : Obj)
+/-- allocation of an object whose entries respect level `t` (never `ext`: that level is not allocated) -/
+theorem Typed.alloc {n0 : Nat} {W : Loc → Prop} {τ : Typing} {h : Heap} (ht : Typed n0 W τ h) (hn : n0 ≤ h.size)
+    (t : Lvl) (o : Obj) (hte : t ≠ .ext)
     (harr : t = .num → ∃ d, o = .arr d)
     (hent : ∀ es, o = .dict es → ∀ e ∈ es, EntryOK τ t e.2) :
-    Typed n0 (τ.add h.size t) (h.alloc o).1 := by
+    Typed n0 W (τ.add h.size t) (h.alloc o).1 := by
   have hle := Typing.le_add ht t
-  refine ⟨?_, ?_, ?_⟩
+  refine ⟨?_, ?_, ?_, ?_⟩
   · intro (l : Nat) t' hl
     simp only [Typing.add] at hl
     rw [size_alloc]
     split at hl
     · rename_i heq
       have h1 : @Eq Nat l h.size := heq
-      exact ⟨by omega, by omega⟩
-    · have h1 : @LE.le Nat _ n0 l := (ht.bound l t' hl).1
-      have h2 : @LT.lt Nat _ l h.size := (ht.bound l t' hl).2
-      exact ⟨h1, by omega⟩
+      exact ⟨by omega, fun _ => by omega⟩
+    · have h1 := ht.bound l t' hl
+      exact ⟨by have := h1.1; omega, h1.2⟩
+  · intro l hl
+    simp only [Typing.add] at hl
+    split at hl
+    · exact absurd (Option.some.inj hl) hte
+    · exact ht.extW l hl
   · intro l hl
     simp only [Typing.add] at hl
     split at hl
@@ -328,7 +393,7 @@ theorem Typed.alloc {n0 : Nat} {τ : Typing} {h : Heap} (ht : Typed n0 τ h) (hn
       obtain ⟨d, rfl⟩ := harr (Option.some.inj hl)
       exact ⟨d, get_alloc_new h _⟩
     · obtain ⟨d, hd⟩ := ht.isArr l hl
-      exact ⟨d, by rw [get_alloc_lt h o (ht.bound l _ hl).2]; exact hd⟩
+      exact ⟨d, by rw [get_alloc_lt h o (ht.bound l _ hl).1]; exact hd⟩
   · intro l t' es hl hg e he
     simp only [Typing.add] at hl
     split at hl
@@ -336,20 +401,17 @@ theorem Typed.alloc {n0 : Nat} {τ : Typing} {h : Heap} (ht : Typed n0 τ h) (hn
       rw [get_alloc_new] at hg
       cases Option.some.inj hl
       exact (hent es (Option.some.inj hg) e he).mono hle
-    · rw [get_alloc_lt h o (ht.bound l _ hl).2] at hg
+    · rw [get_alloc_lt h o (ht.bound l _ hl).1] at hg
       exact (ht.entries l t' es hl hg e he).mono hle
 
-theorem get_set_eq (h : Heap) {l : Loc} (hl : l < h.size) (o : Obj) : (h.set l o).get l = some o := by
-  simp only [Heap.set, Heap.get, Heap.size] at *
-  simp [hl]
-
 /-- a write into a typed location keeping the kind of object and the level of its entries -/
-theorem Typed.set {n0 : Nat} {τ : Typing} {h : Heap} (ht : Typed n0 τ h) {l : Loc} {t : Lvl} (hl : τ l = some t)
+theorem Typed.set {n0 : Nat} {W : Loc → Prop} {τ : Typing} {h : Heap} (ht : Typed n0 W τ h) {l : Loc} {t : Lvl}
+    (hl : τ l = some t)
     (o : Obj) (harr : t = .num → ∃ d, o = .arr d)
     (hent : ∀ es, o = .dict es → ∀ e ∈ es, EntryOK τ t e.2) :
-    Typed n0 τ (h.set l o) := by
-  have hb := (ht.bound l t hl).2
-  refine ⟨?_, ?_, ?_⟩
+    Typed n0 W τ (h.set l o) := by
+  have hb := (ht.bound l t hl).1
+  refine ⟨?_, ht.extW, ?_, ?_⟩
   · intro l' t' hl'
     rw [size_set]
     exact ht.bound l' t' hl'
@@ -373,7 +435,7 @@ theorem Typed.set {n0 : Nat} {τ : Typing} {h : Heap} (ht : Typed n0 τ h) {l : 
 
 /-- the entries of a reference of class `lv t` respect level `t` (an array, an immutable value and a
 missing object have no entries) -/
-theorem contents_entryOK {n0 : Nat} {τ : Typing} {h : Heap} (ht : Typed n0 τ h) {t : Lvl} {r : Ref}
+theorem contents_entryOK {n0 : Nat} {W : Loc → Prop} {τ : Typing} {h : Heap} (ht : Typed n0 W τ h) {t : Lvl} {r : Ref}
     (hr : SatCls τ (.lv t) r) (hne : t.elem ≠ none) : ∀ e ∈ contents h r, EntryOK τ t e.2 := by
   intro e he
   unfold contents at he
@@ -383,7 +445,7 @@ theorem contents_entryOK {n0 : Nat} {τ : Typing} {h : Heap} (ht : Typed n0 τ h
     · rename_i es hg
       obtain ⟨t', h1, h2⟩ := hr l rfl
       rw [Lvl.sub_iff] at h2
-      rcases h2 with rfl | rfl
+      rcases h2 with rfl | ⟨rfl, _⟩
       · exact ht.entries l t' es h1 hg e he
       · obtain ⟨d, hd⟩ := ht.isArr l h1
         rw [hd] at hg
